@@ -334,6 +334,39 @@ pub fn format(report: &TaxReport) -> Result<Vec<u8>, PdfError> {
     Ok(pdf)
 }
 
+/// Verification hook (cargo feature `verif`): the text runs of the compiled document, page by
+/// page in layout order, so that a harness can read the figures the PDF actually shows without
+/// parsing PDF bytes. `generation_date` is the only run that differs between two calls.
+#[cfg(feature = "verif")]
+pub fn verif_text_runs(report: &TaxReport) -> Result<Vec<String>, PdfError> {
+    use typst::layout::{Frame, FrameItem};
+
+    fn walk(frame: &Frame, out: &mut Vec<String>) {
+        for (_, item) in frame.items() {
+            match item {
+                FrameItem::Group(group) => walk(&group.frame, out),
+                FrameItem::Text(text) => out.push(text.text.to_string()),
+                _ => {}
+            }
+        }
+    }
+
+    let data = build_template_data(report)?;
+    let engine = TypstEngine::builder()
+        .main_file(TEMPLATE)
+        .fonts([ROBOTO_REGULAR, ROBOTO_BOLD])
+        .build();
+    let doc: typst::layout::PagedDocument = engine
+        .compile_with_input(data)
+        .output
+        .map_err(|e| PdfError::TypstCompilation(e.to_string()))?;
+    let mut runs = Vec::new();
+    for page in &doc.pages {
+        walk(&page.frame, &mut runs);
+    }
+    Ok(runs)
+}
+
 pub struct PdfFormatter;
 
 impl Formatter for PdfFormatter {
